@@ -676,8 +676,8 @@ class Compiler:
                 self._emit(OpCode.SET_PROP)
                 self._emit(OpCode.POP)  # Pop the result of SET_PROP
             else:
-                raise NotImplementedError(
-                    f"Unsupported for-in left: {type(node.left).__name__}"
+                raise self._syntax_error(
+                    node, "Invalid left-hand side in for-in loop"
                 )
 
             self._compile_statement(node.body)
@@ -716,8 +716,8 @@ class Compiler:
                 self._emit_store_variable(node.left.name, declare=False)
                 self._emit(OpCode.POP)
             else:
-                raise NotImplementedError(
-                    f"Unsupported for-of left: {type(node.left).__name__}"
+                raise self._syntax_error(
+                    node, "Invalid left-hand side in for-of loop"
                 )
 
             self._compile_statement(node.body)
